@@ -26,7 +26,7 @@ def obj(name, rng, **kw):
     return o
 
 
-def names_scenario(sid, hist, rng, lag):
+def names_scenario(sid, hist, rng, lag, collide=False):
     """TLC history of Names.tla -> ctrl scenario. lag=False: the worker settles after every operation (admission-valid, settled);
     lag=True: operations are issued back to back and the gateway is observed only after everything (requeues included) has settled."""
     steps = []
@@ -56,7 +56,7 @@ def names_scenario(sid, hist, rng, lag):
         if not lag:
             steps += [{"k": "sleep", "ms": 200}, {"k": "obs"}]
     steps += [{"k": "sleep", "ms": 30000}, {"k": "obs"}]
-    return {"id": sid, "hosts": HOSTS, "versions": True, "steps": steps}
+    return {"id": sid, "hosts": HOSTS, "versions": not collide, "steps": steps}
 
 
 def reload_scenario(sid, hist, rng):
@@ -122,6 +122,26 @@ def run(prop, tier, replay):
                 for i, h in enumerate(hists):
                     scs.append(names_scenario(i + 1, h, rng, lag=False))
                     kinds[str(i + 1)] = "names"
+                # objects whose names COLLIDE with another cluster's (no admission in front of the gateway): refused updates, deletes after them
+                for variant, expect in (("dropstale", False), ("rewrite", True)):
+                    nc = vlib.tlc("dataplane", "Names", "NamesCollide.cfg", workers=8, timeout=900, consts={"Variant": '"%s"' % variant, "MaxEvents": 4 if tier == "quick" else 5})
+                    if bool(nc.violation) != expect:
+                        raise Infra("Names.tla (colliding objects) variant %s: unexpected result %s" % (variant, nc.violated()))
+                    states, trans = states + nc.distinct, trans + nc.generated
+                nco = 80 if tier == "quick" else 1000
+                genc = vlib.tlc("dataplane", "NamesGen", "NamesGen.cfg", workers=1, timeout=900, simulate="num=%d" % (nco * 3), depth=40, tlc_seed=seed + 7, consts={"Admission": "FALSE", "MaxEvents": 6})
+                hc = list({vlib.canon(h): h for h in genc.json_prints("HIST")}.values())
+                rng.shuffle(hc)
+                A = lambda c, *al: {"k": "apply", "c": c, "al": list(al)}
+                D = lambda c: {"k": "delete", "c": c, "al": []}
+                # directed: an update is refused because of a collision - then the cluster is deleted / the other one is / it is updated again
+                directed = [[A("a", "x"), A("b", "y"), A("a", "y"), D("a")], [A("a", "x"), A("b", "y"), A("a", "y"), D("b")], [A("a", "x"), A("b", "y"), A("a", "x", "y"), D("a")],
+                            [A("a", "x"), A("b", "y"), A("a", "y"), A("a"), D("a")], [A("a", "x"), A("b"), A("b", "x"), D("b")], [A("a", "x"), A("b", "y"), A("a", "y"), A("b", "x"), D("a")],
+                            [A("a", "x"), A("b", "y"), A("a", "y"), D("a"), A("c", "x")], [A("a", "x", "y"), A("b"), A("b", "y"), A("a", "x"), D("b"), A("c", "y")]]
+                for i, h in enumerate(directed + hc[:nco]):
+                    sid = 300001 + i
+                    scs.append(names_scenario(sid, h, rng, lag=False, collide=True))
+                    kinds[str(sid)] = "collide"
             else:
                 mc = vlib.tlc("dataplane", "Reload", "Reload.cfg", workers=8, timeout=1800, consts={"MaxSteps": 3 if tier == "quick" else 4})
                 if mc.violation:
@@ -155,16 +175,30 @@ def run(prop, tier, replay):
         tl = []
         for sid, t in traces.items():
             evs = []
+            ever = {}
+            vers = {}
+            nobs = sum(1 for e in t["events"] if e["k"] == "obs")
             for e in t["events"]:
+                if e["k"] == "apply":
+                    o = e["obj"]
+                    ever.setdefault(o["name"], set()).update([bm[o["name"]]] + [bm[a] for a in o["aliases"]])
+                    vers.setdefault(o["name"], []).append(sorted(set([bm[o["name"]]] + [bm[a] for a in o["aliases"]])))
+                elif e["k"] == "delete":
+                    ever[e["name"]] = set()
+                    vers[e["name"]] = []
                 if e["k"] == "mid":
                     evs.append({"k": "mid", "resolve": e["resolve"]})
                     continue
                 if e["k"] != "obs":
                     evs.append({"k": e["k"]})
                     continue
-                evs.append(clean(e))
+                ce = clean(e)
+                ce["ever"] = {c: sorted(ever.get(c, ())) for c in e["latest"]}
+                ce["vers"] = {c: list(vers.get(c, [])) for c in e["latest"]}
+                ce["settled"] = sum(1 for x in evs if x["k"] == "obs") == nobs - 1        # the last observation: 30 s after the last operation
+                evs.append(ce)
             kind = kinds.get(sid, "names")
-            tl.append({"id": int(sid), "base": bm, "judgeNames": prop == "C10", "judgeReload": prop == "C11", "events": evs})
+            tl.append({"id": int(sid), "base": bm, "judgeNames": prop == "C10", "judgeReload": prop == "C11", "collide": kind == "collide", "events": evs})
         tr_p = os.path.join(wd, "gw.ndjson")
         vlib.write_ndjson(tr_p, tl)
         by_id = {str(t["id"]): t for t in tl}
@@ -189,10 +223,11 @@ def run(prop, tier, replay):
             rejected = still
         for sid, (line, why) in sorted(rejected.items()):
             e = by_id[sid]["events"][line - 1]
-            detail = {"resolve": e.get("resolve"), "latest": e.get("latest")} if why == "names" else {"table_after_a_write": e.get("resolve")} if why == "mid" else \
+            detail = {"resolve": e.get("resolve"), "latest": e.get("latest")} if why in ("names", "collide") else {"table_after_a_write": e.get("resolve")} if why == "mid" else \
                      {c: {"effective": e["eff"][c], "fresh": e["fresh"][c]} for c in e["eff"] if e["eff"][c] != e["fresh"][c]}
             v.violation("trace-%s" % sid, {"scenario": sc_by_id[sid], "kind": kinds.get(sid), "observation_index": line, "clause": why, "detail": detail,
                                            "what": "host resolution / TLS selection differs from the latest objects" if why == "names"
+                                                   else "colliding objects: a name resolves to a deleted cluster / to a cluster that never claimed it, an incumbent lost a name it still claims, or the table does not follow the latest objects once they no longer collide" if why == "collide"
                                                    else "in the middle of an update a name resolved neither as before nor as after it (a kept name was unresolvable, or another cluster's name was touched)" if why == "mid"
                                                    else "effective configuration differs from a fresh gateway given only the latest objects"})
         rc = v.finish()
